@@ -33,6 +33,9 @@ CONSTANTS Types,      \* event types the source declares
           AutoOpts,   \* allowed [prio, weak] options of autoBindEvents ({} = off)
           RVs,        \* handler return values
           UnsubModes, \* "handler" | "handlerT" | "eid" | "eidT" | "pair"
+          BulkModes,  \* item forms of removeListeners(list): subset of {"handler", "eid", "pair"}
+          BulkLens,   \* lengths of the lists handed to removeListeners ({} = off)
+          WithClear,  \* clearHandlers() may be issued
           Forms,      \* "inst" (raiseEvent(Ev())) | "cls" (raiseEvent(Ev))
           NoErrs,     \* subset of BOOLEAN: raiseEventNoErrors or raiseEvent
           RaiseTypes, \* types that may be raised (subset of Types \cup {"U"})
@@ -185,6 +188,49 @@ Unsubscribe(mode, o, m, t, id) ==
   /\ Log("Unsubscribe", [mode |-> mode, o |-> o, m |-> m, t |-> t, id |-> id],
          [O0 EXCEPT !.k = "unsub", !.alt = (gone # {}), !.n = Len(subs')])
 
+\* removeListeners(list): the plural form, the documented way to undo
+\* autoBindEvents / addListeners / listenTo (which return a list of ids).
+\* Every element is a handler, an eid or a (type, eid) pair; EVERY element is
+\* unsubscribed, whatever the outcome for the elements before it (live,
+\* stale, never issued, duplicate); the result says whether anything changed.
+\*   items: sequence of [mode, o, m, t, id]
+MatchesAny(r, items) ==
+  \E k \in DOMAIN items :
+    Matches(r, items[k].mode, items[k].o, items[k].m, items[k].t, items[k].id)
+
+UnsubscribeMany(items) ==
+  LET gone == {r \in Range(subs) : MatchesAny(r, items)}
+      self == IF stack = <<>> THEN {}
+              ELSE {r \in gone : r.o = Top.cur.o /\ r.m = Top.cur.m}
+      stk  == Bump(stack) IN
+  /\ OpsOK /\ cnt.unsub < MaxUnsubs
+  /\ \A k \in DOMAIN items :
+       /\ items[k].mode \in {"handler", "eid", "pair"}
+       /\ (items[k].mode = "handler" => items[k].o \notin dead)
+  /\ subs' = Without(subs, {r.id : r \in gone})
+  /\ stack' = stk
+  /\ freed' = Norm(freed \cup {r.id : r \in self}, stk)
+  /\ cnt' = [cnt EXCEPT !.unsub = @ + 1]
+  /\ UNCHANGED dead
+  /\ Log("UnsubscribeMany", [items |-> items],
+         [O0 EXCEPT !.k = "unsub", !.alt = (gone # {}), !.n = Len(subs')])
+
+\* clearHandlers(): "remove all handlers from this object".  Deliveries in
+\* progress keep the list they froze when they were raised (like any removal
+\* by another handler); the handler that issues it counts as having asked to
+\* be removed (exactly as with removeListener).
+ClearAll ==
+  LET self == IF stack = <<>> THEN {}
+              ELSE {r \in Range(subs) : r.o = Top.cur.o /\ r.m = Top.cur.m}
+      stk  == Bump(stack) IN
+  /\ WithClear /\ OpsOK /\ cnt.unsub < MaxUnsubs
+  /\ subs' = <<>>
+  /\ stack' = stk
+  /\ freed' = Norm(freed \cup {r.id : r \in self}, stk)
+  /\ cnt' = [cnt EXCEPT !.unsub = @ + 1]
+  /\ UNCHANGED dead
+  /\ Log("ClearAll", [x |-> 0], [O0 EXCEPT !.k = "clear", !.n = 0])
+
 \* the last strong reference to owner o goes away.  Enabled only when that
 \* really lets the object die: no strong subscription of o is live or held
 \* by a delivery in progress, and no running handler belongs to o.
@@ -290,6 +336,16 @@ RaiseSimple(t, form) ==
 Handlers == {<<o, "h">> : o \in Owners} \cup
             (IF AutoOpts = {} THEN {} ELSE {<<o, t>> : o \in Owners, t \in Types})
 
+\* the elements a removeListeners list is made of (bounded exploration only)
+Item(mode, o, m, t, id) == [mode |-> mode, o |-> o, m |-> m, t |-> t, id |-> id]
+BulkItems ==
+  {Item("handler", h[1], h[2], "-", 0) : h \in (IF "handler" \in BulkModes THEN Handlers ELSE {})}
+  \cup {Item("eid", "-", "-", "-", id) : id \in (IF "eid" \in BulkModes THEN 1..(cnt.sub + 1) ELSE {})}
+  \cup {Item("pair", "-", "-", x[1], x[2]) :
+          x \in (IF "pair" \in BulkModes THEN Types \X (1..(cnt.sub + 1)) ELSE {})}
+BulkLists == UNION {[1..n -> BulkItems] : n \in BulkLens}
+UnsubscribeManyAny == \E items \in BulkLists : UnsubscribeMany(items)
+
 Next ==
   \/ \E t \in SubTypes, o \in Owners, opt \in SubOpts : Subscribe(t, o, opt)
   \/ \E o \in Owners, opt \in AutoOpts : AutoBind(o, opt)
@@ -301,6 +357,8 @@ Next ==
         Unsubscribe(mode, "-", "-", "-", id)
   \/ \E mode \in UnsubModes \cap {"eidT", "pair"}, id \in 1..(cnt.sub + 1), t \in Types :
         Unsubscribe(mode, "-", "-", t, id)
+  \/ UnsubscribeManyAny
+  \/ ClearAll
   \/ \E o \in Owners : DropOwner(o)
   \/ \E t \in RaiseTypes, form \in Forms, ne \in NoErrs : RaiseBegin(t, form, ne)
   \/ \E t \in RaiseTypes, form \in Forms : RaiseSimple(t, form)
@@ -397,7 +455,13 @@ NeverAgain ==
      /\ (last'.a = "Unsubscribe") =>
            \A r \in Range(subs) :
              Matches(r, last'.args.mode, last'.args.o, last'.args.m, last'.args.t, last'.args.id)
-               <=> r.id \notin Ids(subs')]_vars
+               <=> r.id \notin Ids(subs')
+     \* removeListeners(list) unsubscribes what ANY of its elements names, and only that
+     /\ (last'.a = "UnsubscribeMany") =>
+           /\ \A r \in Range(subs) :
+                 MatchesAny(r, last'.args.items) <=> r.id \notin Ids(subs')
+           /\ last'.exp.alt <=> (Len(subs') < Len(subs))
+     /\ (last'.a = "ClearAll") => subs' = <<>>]_vars
 
 \* ---- export for the replay harness
 Bound   == Len(hist) <= D
